@@ -25,6 +25,7 @@ func TestMain(m *testing.M) {
 	vh.Assume("time.Time values are UTC; DATE values are at midnight; TIME/DATETIME values are the exact time of a 1/300 s tick plus at most 1.6 ms so rounding cannot leave the day; smalldatetime days 0..65535; unitext without trailing NUL (decoder documents trimming); empty strings/byte strings excluded (they encode like NULL)")
 	vh.Rule("also: batches of 2..8 values converted in goroutines at the same time (separate race-detector run)")
 	vh.Rule("also: package leg with column status bytes (a third of the cases); temporal values carrying a location (fixed offsets, zones with daylight saving, clock-change days): encode + decode gives back the clock reading to the tick")
+	vh.Rule("also: format + rows fed through a real channel with an informational message / environment change between the rows: every row keeps its format and its values")
 	vh.Main(m, "C04")
 }
 
